@@ -69,6 +69,8 @@ func (c *ChoiceProvider) hook(verb, name string) error {
 		call.Err = errString(err)
 	}
 	if c.w.Client.Quiet == 0 {
+		c.w.Client.mu.Lock()
+		defer c.w.Client.mu.Unlock()
 		c.w.Client.seq++
 		call.Seq = c.w.Client.seq
 		c.w.Client.Log = append(c.w.Client.Log, *call)
